@@ -1,4 +1,5 @@
 import L21.Proofs.Gds
+import L21.Proofs.GdsGrammar
 /-
 C02 — Bytes written for a library are a well-formed GDSII stream with that content.
 
@@ -123,5 +124,16 @@ theorem c02_ends_with_endlib (l : Library) (bs : Bytes) (h : enc l = .ok bs) :
         simp [h1, h2] at h; subst h
         obtain ⟨pre, e⟩ := ih b h2
         exact ⟨a ++ pre, by rw [e, List.append_assoc]⟩
+
+/-- GRAMMAR, PROVED: for EVERY library, the sequence of record types the writer emits is a sentence of
+    the manual's BNF (`Spec.gdsGrammar`, transcribed from the GDSII Stream Format Manual, not from
+    the sources): HEADER BGNLIB LIBNAME UNITS {BGNSTR STRNAME {<element>}* ENDSTR}* ENDLIB with every
+    element's records in the manual's order (optional records in their slots, STRANS before XY,
+    BGNEXTN/ENDEXTN before XY, properties last). -/
+theorem c02_grammar (l : Library) : Spec.gdsGrammar ((libRecs l).map (·.rt)) = true :=
+  grammar_libRecs l
+
+example : Spec.gdsGrammar [0, 1, 2, 3, 5, 6, 9, 13, 14, 16, 48, 49, 17, 7, 4] = false := by decide  -- extensions after XY: rejected
+example : Spec.gdsGrammar [0, 1, 2, 3, 5, 6, 9, 13, 14, 48, 49, 16, 17, 7, 4] = true := by decide
 
 end L21.Gds
